@@ -1190,3 +1190,104 @@ Proof.
   intros HL. rewrite failed_fn_survivors, <- gather_map. apply estimate_all_removal.
   intros j Hj. rewrite failed_fn_length. apply HL. exact Hj.
 Qed.
+
+
+(* ================================================================================================ *)
+(* end to end: what one_set reports, in terms of the values the evaluator returned                      *)
+(* ---- end to end: what one_set reports for function j ------------------------------------------------- *)
+Lemma reported_function c raw fouts r objs cons :
+  one_set c raw fouts = Done r -> r_functions r = Some (Values objs cons) ->
+  objs = estimate_all (cfg_ests c) (resolve_emap (cfg_no c) (cfg_oem c)) (cfg_w c) (r_ow r)
+                      (map fst (propagate_nan raw)) (failed_fn (propagate_nan raw)) /\
+  cons = estimate_all (cfg_ests c) (resolve_emap (cfg_nc c) (cfg_cem c)) (cfg_w c) (r_cw r)
+                      (map snd (propagate_nan raw)) (failed_fn (propagate_nan raw)).
+Proof.
+  intros H Hf. destruct (one_set_gate c raw fouts r H) as (Hr & Hfl & _ & Hv).
+  specialize (Hv _ Hf). unfold compute_functions in Hv. rewrite Hr, Hfl in Hv.
+  destruct (forallb (fun b : bool => b) (failed_fn (propagate_nan raw))); [discriminate|].
+  injection Hv as -> ->. split; reflexivity.
+Qed.
+
+Lemma survivor_column (sel : list oQ * list oQ -> list oQ) j raw :
+  Forall (fun oc : list oQ * list oQ => fst oc <> []) raw ->
+  gather (keep_of (failed_fn (propagate_nan raw))) (column j (map sel (propagate_nan raw))) =
+  gather (keep_of (failed_fn (propagate_nan raw))) (column j (map sel raw)).
+Proof.
+  intros H. rewrite <- !column_gather, !gather_map, (survivors_untouched raw H). reflexivity.
+Qed.
+
+Lemma estimate_all_mean_raw (sel : list oQ * list oQ -> list oQ) ests emap cfgw wmat raw j :
+  Forall (fun oc : list oQ * list oQ => fst oc <> []) raw ->
+  (j < length emap)%nat -> nth_error ests (nth j emap 0%nat) = Some Mean ->
+  let failed := failed_fn (propagate_nan raw) in
+  let wrow := in_force cfgw wmat j in
+  length wrow = length raw ->
+  let ws := gather (keep_of failed) wrow in
+  let fs := nan_to_num (gather (keep_of failed) (column j (map sel raw))) in
+  ~ qsum ws == 0 ->
+  exists v, nth j (estimate_all ests emap cfgw wmat (map sel (propagate_nan raw)) failed) FNoEst = FOk v /\
+            v == dot fs ws / qsum ws.
+Proof.
+  intros Hraw Hj Hk failed wrow HL ws fs Hs.
+  rewrite estimate_all_nth by exact Hj. rewrite Hk.
+  assert (HL' : length wrow = length failed).
+  { unfold failed. rewrite failed_fn_length, propagate_nan_length. exact HL. }
+  destruct (estimate_mean_spec (column j (map sel (propagate_nan raw))) wrow failed HL') as [_ Hm].
+  destruct (Hm Hs) as (v & Hv & Hval). exists v. split; [exact Hv|].
+  rewrite Hval. subst fs ws failed. rewrite (survivor_column sel j raw Hraw). reflexivity.
+Qed.
+
+Lemma estimate_all_var_raw (sel : list oQ * list oQ -> list oQ) ests emap cfgw wmat raw j :
+  Forall (fun oc : list oQ * list oQ => fst oc <> []) raw ->
+  (j < length emap)%nat -> nth_error ests (nth j emap 0%nat) = Some Stddev ->
+  let failed := failed_fn (propagate_nan raw) in
+  let wrow := in_force cfgw wmat j in
+  length wrow = length raw -> Forall (fun x => 0 <= x) wrow ->
+  let ws := gather (keep_of failed) wrow in
+  let fs := nan_to_num (gather (keep_of failed) (column j (map sel raw))) in
+  let S := qsum ws in
+  let N := nat_Q (count_pos ws) in
+  let m := dot fs ws / S in
+  (2 <= count_pos ws)%nat ->
+  exists v, nth j (estimate_all ests emap cfgw wmat (map sel (propagate_nan raw)) failed) FNoEst = FOk v /\
+            v == N / (N - 1) * (dot (map (fun x => sq (x - m)) fs) ws / S).
+Proof.
+  intros Hraw Hj Hk failed wrow HL Hnn ws fs S N m H2.
+  rewrite estimate_all_nth by exact Hj. rewrite Hk.
+  assert (HL' : length wrow = length failed).
+  { unfold failed. rewrite failed_fn_length, propagate_nan_length. exact HL. }
+  pose proof (estimate_var_spec (column j (map sel (propagate_nan raw))) wrow failed HL' Hnn) as Hm.
+  cbv zeta in Hm. subst m N S ws fs failed. rewrite (survivor_column sel j raw Hraw) in Hm. exact (Hm H2).
+Qed.
+
+(* what calculate() reports for one variable vector: every objective (sel = fst) and constraint (sel = snd) value *)
+Theorem reported_values c raw fouts r objs cons :
+  Forall (fun oc : list oQ * list oQ => fst oc <> []) raw ->
+  one_set c raw fouts = Done r -> r_functions r = Some (Values objs cons) ->
+  let failed := r_failed r in
+  forall (sel : list oQ * list oQ -> list oQ) vals emap wm,
+  (sel = fst /\ vals = objs /\ emap = resolve_emap (cfg_no c) (cfg_oem c) /\ wm = r_ow r) \/
+  (sel = snd /\ vals = cons /\ emap = resolve_emap (cfg_nc c) (cfg_cem c) /\ wm = r_cw r) ->
+  forall j, (j < length emap)%nat ->
+  let wrow := in_force (cfg_w c) wm j in
+  length wrow = length raw ->
+  let ws := gather (keep_of failed) wrow in
+  let fs := nan_to_num (gather (keep_of failed) (column j (map sel raw))) in
+  let S := qsum ws in
+  (nth_error (cfg_ests c) (nth j emap 0%nat) = Some Mean -> ~ S == 0 ->
+     exists v, nth j vals FNoEst = FOk v /\ v == dot fs ws / S) /\
+  (nth_error (cfg_ests c) (nth j emap 0%nat) = Some Stddev -> Forall (fun x => 0 <= x) wrow -> (2 <= count_pos ws)%nat ->
+     let N := nat_Q (count_pos ws) in
+     let m := dot fs ws / S in
+     exists v, nth j vals FNoEst = FOk v /\ v == N / (N - 1) * (dot (map (fun x => sq (x - m)) fs) ws / S)).
+Proof.
+  intros Hraw H Hf failed sel vals emap wm Hsel j Hj wrow HL ws fs S.
+  destruct (reported_function c raw fouts r objs cons H Hf) as [Ho Hc].
+  destruct (one_set_gate c raw fouts r H) as (_ & Hfl & _).
+  subst S fs ws wrow failed. rewrite Hfl.
+  destruct Hsel as [(-> & -> & -> & ->) | (-> & -> & -> & ->)]; [rewrite Ho | rewrite Hc]; split.
+  - intros Hk Hs. exact (estimate_all_mean_raw fst _ _ _ _ raw j Hraw Hj Hk HL Hs).
+  - intros Hk Hnn H2. exact (estimate_all_var_raw fst _ _ _ _ raw j Hraw Hj Hk HL Hnn H2).
+  - intros Hk Hs. exact (estimate_all_mean_raw snd _ _ _ _ raw j Hraw Hj Hk HL Hs).
+  - intros Hk Hnn H2. exact (estimate_all_var_raw snd _ _ _ _ raw j Hraw Hj Hk HL Hnn H2).
+Qed.
